@@ -437,6 +437,7 @@ func c14Negative(c *core.C) {
 		c14ExpectErrorBlock(c, b.class+"/block", "p(1);\nr(1) <- p($x), $x == "+b.text+";\n")
 		c14ExpectErrorBlock(c, b.class+"/block-fact", "p("+b.text+");\n")
 	}
+	c14VariableThroughParameter(c)
 	c.Sample(map[string]any{"kind": "negative catalogue", "classes": []string{"unbound-parameter", "malformed-date", "malformed-bytes", "variable-in-set", "chained-comparison"}, "positions": []string{"predicate", "expression", "method-argument", "check", "policy", "block"}})
 }
 
@@ -471,6 +472,44 @@ func c14ExpectError(c *core.C, class, text string) {
 		c.Violate("no-error/"+class, fmt.Sprintf("%q was accepted; the grammar requires an error (%s)", text, class), map[string]any{"text": text, "class": class})
 		// is the accepted value at least safe to add?
 		addSafety(c, "wrongly-accepted "+class, text, nil, rules, checks, pols)
+	}
+}
+
+// c14VariableThroughParameter: a parameter bound to a variable is a variable wherever it is
+// substituted - inside a set (and in a fact) it is reported as an error like a variable written
+// in the text.
+func c14VariableThroughParameter(c *core.C) {
+	p := parser.New()
+	params := parser.ParametersMap{"v": biscuit.Variable("x"), "n": biscuit.Integer(1)}
+	texts := map[string]func(string) error{
+		"fact":   func(t string) error { _, err := p.Fact(t, params); return err },
+		"rule":   func(t string) error { _, err := p.Rule(t, params); return err },
+		"check":  func(t string) error { _, err := p.Check(t, params); return err },
+		"policy": func(t string) error { _, err := p.Policy(t, params); return err },
+		"block":  func(t string) error { _, err := p.Block(t, params); return err },
+	}
+	cases := [][2]string{
+		{"fact", `right("a", [{v}])`}, {"fact", `right("a", [{n}, {v}])`}, {"fact", `right({v})`},
+		{"rule", `r($x) <- p($x), q([{v}])`}, {"rule", `r($x) <- p($x), [{n}, {v}].contains($x)`},
+		{"check", `check if p($x), [{v}].contains($x)`}, {"check", `check if p([{v}, {n}])`},
+		{"policy", `allow if p($x), $x.intersection([{v}]).length() > 0`},
+		{"block", `right("a", [{v}]);`},
+	}
+	for _, k := range cases {
+		c.Eval(1)
+		var err error
+		if pi := lib.Try(func() { err = texts[k[0]](k[1]) }); pi != nil {
+			c.Violate("parse-panic/"+pi.Site+"/negative", pi.Msg, map[string]any{"text": k[1]})
+			continue
+		}
+		if err == nil {
+			c.Violate("no-error/variable-through-parameter/"+k[0], fmt.Sprintf("%q with {v} bound to the variable $x was accepted; a variable inside a set / a fact is an error", k[1]), map[string]any{"text": k[1]})
+		}
+		c.NT("negative/variable-through-parameter/" + k[1])
+	}
+	// control: the same parameter is fine where a variable is allowed
+	if _, err := p.Rule(`r({v}) <- p({v}), {v} == {n}`, params); err != nil {
+		c.Violate("parse-rejects-grammar-text/rule", "a parameter bound to a variable was refused in a rule: "+err.Error(), nil)
 	}
 }
 
